@@ -33,6 +33,17 @@ Theorem C17_schema_accept_iff_documented : forall e cfg src kv r,
 Proof. exact get_schema_settings_accept_iff. Qed.
 Print Assumptions C17_schema_accept_iff_documented.
 
+(* include_comments is a closed set: whatever TOML value is given, the comment-mode constraint holds only for
+   one of the three mode strings or a (deprecated) boolean; integers - 0 and 1 included -, arrays, tables are
+   unknown comment modes (the third disjunct is void for real float lexemes, which are opaque in Base/Json.v) *)
+Theorem C17_comment_mode_closed_set : forall kv r v,
+  decode_client kv = Some r -> jlookup "include_comments" kv = Some v ->
+  valid_comment (r_comments r) = true ->
+  (exists s, v = JStr s /\ valid_comment s = true) \/ (exists b, v = JBool b) \/
+  (exists l, v = JFloat l /\ valid_comment l = true).
+Proof. exact comment_mode_closed_set. Qed.
+Print Assumptions C17_comment_mode_closed_set.
+
 Theorem C17_scalar_without_type_refused : forall e cfg src kv,
   get_section cfg = Ok (src, kv) -> section_scalars kv = ScMissingType ->
   get_client_settings e cfg = Err (mkerr MissingConfiguration msg_no_type).
@@ -253,7 +264,7 @@ Definition dummy_craw : craw :=
   {| r_base := {| b_schema_path := ""; b_url := ""; b_headers := []; b_verify := true; b_custom_ops := false;
                   b_plugins := [] |}; r_queries_path := ""; r_pkg_name := ""; r_pkg_path := None;
      r_client_name := ""; r_client_file := ""; r_bc_name := ""; r_bc_path := ""; r_enums := "";
-     r_inputs := ""; r_fragments := ""; r_comments := ""; r_snake := true; r_all_inputs := true;
+     r_inputs := ""; r_fragments := ""; r_comments := ""; r_comments_opaque := false; r_snake := true; r_all_inputs := true;
      r_all_enums := true; r_async := true; r_otel := false; r_files := [] |}.
 
 (* former finding F16 (fixed in /repo 0631414), kept as regression statements: keywords and an unusable
@@ -310,6 +321,14 @@ Example C17_processed_schema_decides :
     = ([ERead "s.graphql"; ERead "q.graphql"; EValidateOps SProcessed],
        Failed PhQueries (mkerr InvalidOperationForSchema "Cannot query field 'internalStats' on type 'Query'.")) /\
   snd (run_client ex_env (ex_cfg []) (w [] bad)) = Done.
+Proof. vm_compute. auto. Qed.
+
+Example C17_comment_mode_one_is_not_true :
+  get_client_settings ex_env (ex_cfg [("include_comments", JInt 1)])
+    = Err (mkerr InvalidConfiguration "'1' is not a valid choice. Valid options are: none, stable, timestamp") /\
+  get_client_settings ex_env (ex_cfg [("include_comments", JArr [JStr "stable"])])
+    = Err (mkerr InvalidConfiguration "' is not a valid choice. Valid options are: none, stable, timestamp") /\
+  is_ok (get_client_settings ex_env (ex_cfg [("include_comments", JBool true)])) = true.
 Proof. vm_compute. auto. Qed.
 
 (* F17: an invalid schema is accepted and the package is written *)
